@@ -73,8 +73,20 @@ block_off_t parity_used_size(struct snapraid_state* state)
 		block_off_t block = fs_size(disk);
 
 		/* decrease the block until an used one */
-		while (block > parity_block && !block_has_file_and_valid_parity(fs_par2block_find(disk, block - 1)))
+		while (block > parity_block) {
+			struct snapraid_block* parity_block_ptr = fs_par2block_find(disk, block - 1);
+
+			if (block_has_file_and_valid_parity(parity_block_ptr))
+				break;
+
+			/* also a CHG block with a real past hash needs the existing parity, */
+			/* because sync doesn't write the parity if it finds the data unchanged, */
+			/* like for a file with only the time changed */
+			if (block_state_get(parity_block_ptr) == BLOCK_STATE_CHG && hash_is_unique(parity_block_ptr->hash))
+				break;
+
 			--block;
+		}
 
 		/* get the highest value */
 		if (block > parity_block)
